@@ -82,10 +82,11 @@ def r2_failure_marker(chk: Check):
         ok = len(calls) == 1 and any((src(t.ast), pol) in (("e.code == 0", False), ("e.code != 0", True)) for t, pol in g.guards(calls[0][0]) if t.kind == "test")
         chk.require(ok, chk.fkey(f, "non-zero exit -> failure marker"), "a non-zero SystemExit must go through handle_error", loc)
     # stale failure marker removed only on the way to the body
-    rm = [(n, c) for n, c in g.call_nodes(lambda c: dotted(c.func) == "rmfile" and src(c.args[0]) == "self.failedpath")]
-    for n, c in rm:
+    rm_nodes, _ = removal_nodes(g, rd, "self.failedpath")
+    for n in rm_nodes:
+        c = n.calls()[0]
         done_b = [b for b in g.live if b.kind == "branch" and b.extra["test"] is loop and b.extra["polarity"] == "done"]
-        ok = g.dominates(n, bn) and any(g.dominates(b, n) for b in done_b) and any(rd.canon(t.ast, t) == "self.donepath.is_file()" and pol is False for t, pol in g.guards(n) if t.kind == "test")
+        ok = g.on_every_path([bn], start=n) and any(g.dominates(b, n) for b in done_b) and any(rd.canon(t.ast, t) == "self.donepath.is_file()" and pol is False for t, pol in g.guards(n) if t.kind == "test")
         chk.require(ok, chk.fkey(f, "stale failure marker"), "the stale failure marker may only be removed under the lock, without a success marker, on the path that runs the body", chk.loc(f.module, c))
     # other removers of the failure marker
     for ff in tree.nontest_funcs():
@@ -147,23 +148,42 @@ def r5_pid_under_lock(chk: Check):
     c05.r3_lock_while_starting(chk)
 
 
+def removal_nodes(g, rd, target: str):
+    """CFG nodes that remove the file `target` (canonical text): rmfile(target) / target.unlink(...) / os.remove(target) / os.unlink(target),
+    and -- for must-pass arguments -- the branches on which there is nothing to remove (`target.is_file()` / `.exists()` false)"""
+    removers, nothing = [], []
+    for n in g.live:
+        for c in n.calls():
+            d = dotted(c.func) or ""
+            if d in ("rmfile", "os.remove", "os.unlink") and c.args and rd.canon(c.args[0], n) == target:
+                removers.append(n)
+            elif isinstance(c.func, ast.Attribute) and c.func.attr == "unlink" and rd.canon(c.func.value, n) == target:
+                removers.append(n)
+        if n.kind == "branch" and n.extra["test"].kind == "test" and n.extra["polarity"] is False:
+            t = n.extra["test"]
+            if rd.canon(t.ast, t) in (f"{target}.is_file()", f"{target}.exists()"):
+                nothing.append(n)
+    return removers, nothing
+
+
 def r6_cleanup_order(chk: Check):
     tree = chk.tree
     f = tree.func("run", "TaskRunner.cleanup")
     g = CFG(f.node)
     loc = chk.loc(f.module, f.node)
-    rm = [n for n, c in g.call_nodes(lambda c: dotted(c.func) == "rmfile" and c.args and src(c.args[0]) == "self.pidfile")]
+    rdc = ReachingDefs(g)
+    rm, nothing = removal_nodes(g, rdc, "self.pidfile")
     chk.require(len(rm) == 1, chk.fkey(f, "removes pid file"), "cleanup must remove the pid file", loc)
     if len(rm) != 1:
         return
     r = rm[0]
     flag = [n for n in g.live if n.kind == "stmt" and isinstance(n.ast, ast.Assign) and src(n.ast.targets[0]) == "self.cleaned"]
-    chk.require(bool(flag) and all(g.must_pass(x, g.exit, [r]) for x in flag), chk.fkey(f, "pid removal on every path"), "once cleanup has started, the pid file must be removed on every path", loc)
+    chk.require(bool(flag) and all(g.must_pass(x, g.exit, [r] + nothing) for x in flag), chk.fkey(f, "pid removal on every path"), "once cleanup has started, the pid file must be removed on every path", loc)
     # the first call really cleans: the guard flag starts False (constructor), is only ever set to True here, and under `not cleaned` the removal happens
     from ..dataflow import walk_table
 
     outs = walk_table(g, g.entry, lambda n: ("cleaned", True) if src(n.ast) == "self.cleaned" else None, {"cleaned": False},
-                      lambda n: ["rm"] if n is r else [], lambda n: "exit" if n is g.exit else ("raise" if n is g.raise_ else None))
+                      lambda n: ["rm"] if n is r or n in nothing else [], lambda n: "exit" if n is g.exit else ("raise" if n is g.raise_ else None))
     ok = bool(outs) and all("rm" in o.events for o in outs if o.end == "exit")
     init = tree.func("run", "TaskRunner.__init__")
     inits = [v for t, v, s_ in attr_stores(init.node) if src(t) == "self.cleaned"]
@@ -171,7 +191,10 @@ def r6_cleanup_order(chk: Check):
     others = [(ff.qual, src(s_)) for ff in tree.nontest_funcs() if ff.module is f.module for t, v, s_ in attr_stores(ff.node)
               if src(t) == "self.cleaned" and not (ff is init) and not (ff is f and isinstance(v, ast.Constant) and v.value is True)]
     chk.require(ok and not others, chk.fkey(f, "first call cleans"), f"the first call of cleanup must remove the pid file: the `cleaned` flag must start False, be tested negatively, and only be set (to True) by cleanup itself {others or ''}", loc)
-    before = [n for n in g.live if n is not r and r.id in g.reachable(n) and any(not is_logging_call(c) for c in n.calls())]
+    def harmless(c, n):
+        return is_logging_call(c) or (isinstance(c.func, ast.Attribute) and c.func.attr in ("is_file", "exists") and rdc.canon(c.func.value, n) == "self.pidfile")
+
+    before = [n for n in g.live if n is not r and r.id in g.reachable(n) and any(not harmless(c, n) for c in n.calls())]
     chk.require(not before, chk.fkey(f, "pid removal first"),
                 f"cleanup calls {[b.label()[:40] for b in before]} before removing the pid file: if that call raises (it is not protected), the cleaned flag is already set and "
                 "a job that ended on its own leaves its pid file behind", loc)
